@@ -126,7 +126,7 @@ def fmtResp (r : Resp) : String :=
   s!"qr={boolStr r.qr} rcode={r.rcode} ra={boolStr r.ra} aa={boolStr r.aa} ad={boolStr r.ad} tc={boolStr r.tc} rd={boolStr r.rd} cd={boolStr r.cd} an={r.answers} ns={r.authority} opt={opt}"
 
 def respClass (s : String) : Option RespClass :=
-  if s == "useful" || s == "nxdomain" then some .useful
+  if s == "useful" || s == "nxdomain" || s == "nodata" then some .useful
   else if s == "servfail" || s == "refused" then some .servfail
   else if s == "other" then some .other else none
 
@@ -184,6 +184,10 @@ def stateless (w : List String) : Option String :=
     some s!"class={cls} zone={boolStr (resolveRecordsZone ⟨false, false, false, .none⟩ false false res)}"
   | "fail" :: "l3shed" :: _ => some "unmodelled"
   | "fail" :: "l3trunc" :: _ => some "unmodelled"
+  | ["fail", "nss6", _ledger, n] =>
+    -- every AAAA sub-lookup of the optional job runs under `v6JobCtx`
+    if (v6JobCtx ⟨false, false, false, .none⟩).bestEffort then some s!"asked={n} besteffort={n}" else some s!"asked={n} besteffort=0"
+  | "fail" :: "l3v6" :: _ => some "answer retained=-"
   | "fail" :: "l3deadline" :: _ => some "patient=answer retained=-"
   | ["fail", "l3id", _dnssec, cd, scenario, qtype] => do
     -- whatever the dnssec switch and the outcome path, a failure is filed under the client's own question
